@@ -272,6 +272,13 @@ impl Engine for C13 {
             let a = if mode == "cgr_batch" { Alpha::Mixed } else { Alpha::WithN };
             records[i].seq = gen_seq(rng, len, a);
         }
+        // very rarely one string beyond 2^24 characters (see `gen_huge_seq`): the row of an
+        // oligo vector stays 4^k/2 numbers long whatever the length
+        if mode == "oligo_batch" && !records.is_empty() && rng.chance(1, 2000) {
+            records.truncate(3);
+            let i = rng.usize(0, records.len() - 1);
+            records[i].seq = gen_huge_seq(rng);
+        }
         // arbitrary unicode acts as ambiguous bytes (iterators / oligo only)
         if mode != "cgr_batch" && rng.chance(1, 4) && !records.is_empty() {
             let i = rng.usize(0, records.len() - 1);
